@@ -243,6 +243,11 @@ ob("c20::sd::deserialize_map", "C20", features="serde", timeout=900, functions=[
 ob("c20::sd::serialize_struct", "C20", features="serde", timeout=300, functions=["Serialize for TwoFloat"])
 ob("c20::text_format_sample", "C20", cls="ground", native=True, functions=["Display / LowerExp / UpperExp for TwoFloat"])
 
+# ------------------------------------------------------------------ accuracy clauses on a finite reference sample (ground)
+for _p, _fs in (("C13", "sqrt cbrt hypot powi"), ("C14", "exp exp2 exp_m1 powf"), ("C15", "ln log2 log10 ln_1p"), ("C16", "sin cos tan"),
+                ("C17", "asin acos atan atan2"), ("C18", "sinh cosh tanh asinh acosh atanh")):
+    ob("acc::%s_accuracy_sample" % _p.lower(), _p, cls="ground", native=True, functions=["accuracy clause on the reference sample: " + _fs])
+
 ob("scan::std_dependent_items", "C11", cls="ground", scan=True, kani_only=True, functions=["inventory: cfg(feature = \"std\") / target-dependent items outside test modules"])
 
 COMMON_ASSUMPTIONS = [
